@@ -10,8 +10,10 @@ CONSTANTS Words,        \* set of character-item texts
 
 Templates == { [k |-> "chars", txt |-> w] : w \in Words } \cup
              { [k |-> "opaque", txt |-> <<>>], [k |-> "comment", txt |-> <<>>], [k |-> "none", txt |-> <<>>] }
-OkList(l) == /\ \A i \in 1..(Len(l) - 1) : ~(l[i].k = "chars" /\ l[i + 1].k = "chars")
-             /\ \A i \in 1..(Len(l) - 1) : ~(l[i].k = "chars" /\ l[i + 1].k = "none" /\ i + 2 <= Len(l) /\ l[i + 2].k = "chars")
+(* two character items are always separated by a real construct (the parser would merge them otherwise; None      *)
+(* placeholders occupy no source text)                                                                           *)
+OkList(l) == \A i \in 1..Len(l), j \in 1..Len(l) :
+                (i < j /\ l[i].k = "chars" /\ l[j].k = "chars") => \E m \in (i + 1)..(j - 1) : l[m].k \in {"opaque", "comment"}
 Lists == { l \in UNION { [1..n -> Templates] : n \in 1..MaxItems } : OkList(l) /\ l[1] \in FirstItems }
 
 VARIABLES items, sep, maxsplit, keepempty, skipnone, res, done
